@@ -1074,4 +1074,227 @@ theorem content_eq_nil_of_isEmpty (dflt : ν) : ∀ (d : Nat) (t : Tree κ ν d)
     rfl
 
 end Points
+/-! ### a canonical tree is determined by its content -/
+
+section Unique
+variable {κ ν : Type} [DecidableEq ν]
+
+theorem isEmpty_of_content_nil (dflt : ν) : ∀ (d : Nat) (t : Tree κ ν d),
+    content dflt d t = [] → isEmpty dflt d t = true := by
+  intro d
+  induction d with
+  | zero =>
+    intro t h
+    have key : ∀ v : ν, content (κ := κ) dflt 0 v = [] → isEmpty (κ := κ) dflt 0 v = true := by
+      intro v hv
+      rw [content_zero] at hv
+      by_cases hd : v = dflt
+      · exact decide_eq_true hd
+      · rw [if_neg hd] at hv; cases hv
+    exact key t h
+  | succ d ih =>
+    intro t h
+    rw [content_succ_asList] at h
+    have h' := List.flatMap_eq_nil_iff.1 h
+    apply List.all_eq_true.2
+    intro e he
+    have := h' e he
+    exact ih e.2 (List.map_eq_nil_iff.1 this)
+
+/-- the part of the content contributed by one element -/
+def contrib (dflt : ν) (d : Nat) (e : κ × Tree κ ν d) : List (List κ × ν) :=
+  (content dflt d e.2).map (fun pv => (e.1 :: pv.1, pv.2))
+
+theorem content_cons (dflt : ν) (d : Nat) (e : κ × Tree κ ν d) (r : List (κ × Tree κ ν d)) :
+    content dflt (d + 1) (show Tree κ ν (d + 1) from e :: r) =
+      contrib dflt d e ++ content dflt (d + 1) (show Tree κ ν (d + 1) from r) := rfl
+
+theorem content_nil' (dflt : ν) (d : Nat) :
+    content dflt (d + 1) (show Tree κ ν (d + 1) from ([] : List (κ × Tree κ ν d))) = [] := rfl
+
+variable [DecidableEq κ]
+
+/-- the point starts with coordinate `c` -/
+def hdIs (c : κ) (pv : List κ × ν) : Bool := decide (pv.1.head? = some c)
+
+theorem contrib_hdIs (dflt : ν) (d : Nat) (e : κ × Tree κ ν d) : ∀ pv ∈ contrib dflt d e, hdIs e.1 pv = true := by
+  intro pv h
+  obtain ⟨q, _, rfl⟩ := List.mem_map.1 h
+  simp [hdIs]
+
+theorem contrib_not_hdIs (dflt : ν) (d : Nat) (e : κ × Tree κ ν d) (c : κ) (hne : e.1 ≠ c) :
+    ∀ pv ∈ contrib dflt d e, hdIs c pv = false := by
+  intro pv h
+  obtain ⟨q, _, rfl⟩ := List.mem_map.1 h
+  simp [hdIs, hne]
+
+theorem content_not_hdIs (dflt : ν) (d : Nat) (c : κ) : ∀ (r : List (κ × Tree κ ν d)),
+    (∀ x ∈ r, x.1 ≠ c) → ∀ pv ∈ content dflt (d + 1) (show Tree κ ν (d + 1) from r), hdIs c pv = false := by
+  intro r
+  induction r with
+  | nil => intro _ pv h; rw [content_nil'] at h; cases h
+  | cons x xs ih =>
+    intro hne pv h
+    rw [content_cons] at h
+    rcases List.mem_append.1 h with h | h
+    · exact contrib_not_hdIs dflt d x c (hne x (List.mem_cons_self ..)) pv h
+    · exact ih (fun y hy => hne y (List.mem_cons_of_mem _ hy)) pv h
+
+theorem filter_hdIs_cons (dflt : ν) (d : Nat) (e : κ × Tree κ ν d) (r : List (κ × Tree κ ν d))
+    (hne : ∀ x ∈ r, x.1 ≠ e.1) :
+    (content dflt (d + 1) (show Tree κ ν (d + 1) from e :: r)).filter (hdIs e.1) = contrib dflt d e ∧
+    (content dflt (d + 1) (show Tree κ ν (d + 1) from e :: r)).filter (fun pv => !hdIs e.1 pv) =
+      content dflt (d + 1) (show Tree κ ν (d + 1) from r) := by
+  rw [content_cons, List.filter_append, List.filter_append]
+  have h1 : (contrib dflt d e).filter (hdIs e.1) = contrib dflt d e :=
+    List.filter_eq_self.2 (contrib_hdIs dflt d e)
+  have h2 : (content dflt (d + 1) (show Tree κ ν (d + 1) from r)).filter (hdIs e.1) = [] :=
+    List.filter_eq_nil_iff.2 (fun pv hpv => by rw [content_not_hdIs dflt d e.1 r hne pv hpv]; simp)
+  have h3 : (contrib dflt d e).filter (fun pv => !hdIs e.1 pv) = [] :=
+    List.filter_eq_nil_iff.2 (fun pv hpv => by rw [contrib_hdIs dflt d e pv hpv]; simp)
+  have h4 : (content dflt (d + 1) (show Tree κ ν (d + 1) from r)).filter (fun pv => !hdIs e.1 pv) =
+      content dflt (d + 1) (show Tree κ ν (d + 1) from r) :=
+    List.filter_eq_self.2 (fun pv hpv => by rw [content_not_hdIs dflt d e.1 r hne pv hpv]; rfl)
+  rw [h1, h2, h3, h4]
+  exact ⟨List.append_nil _, List.nil_append _⟩
+
+theorem contrib_inj (dflt : ν) (d : Nat) (c : κ) (t t' : Tree κ ν d)
+    (h : contrib dflt d (c, t) = contrib dflt d (c, t')) : content dflt d t = content dflt d t' := by
+  unfold contrib at h
+  refine (List.map_inj_right ?_).1 h
+  intro a b hab
+  simp only [Prod.mk.injEq, List.cons.injEq, true_and] at hab
+  exact Prod.ext hab.1 hab.2
+
+theorem contrib_head (dflt : ν) (d : Nat) (e : κ × Tree κ ν d) (rest : List (List κ × ν))
+    (hne : contrib dflt d e ≠ []) : ∃ pv, (contrib dflt d e ++ rest).head? = some pv ∧ hdIs e.1 pv = true := by
+  cases hc : contrib dflt d e with
+  | nil => exact absurd hc hne
+  | cons pv r =>
+    refine ⟨pv, rfl, ?_⟩
+    apply contrib_hdIs dflt d e
+    rw [hc]; exact List.mem_cons_self ..
+
+end Unique
+
+section Unique2
+variable {κ ν : Type} [DecidableEq ν] [DecidableEq κ] [LT κ] [DecidableRel (α := κ) (· < ·)] [StrictTotal κ]
+open StrictTotal
+
+/-- the executable well-formedness check decides `WF` -/
+theorem wfB_iff : ∀ (d : Nat) (t : Tree κ ν d), wfB d t = true ↔ WF d t := by
+  intro d
+  induction d with
+  | zero => intro t; exact ⟨fun _ => trivial, fun _ => rfl⟩
+  | succ d ih =>
+    intro t
+    show (sortedB (asList t) && (asList t).all (fun e => wfB d e.2)) = true ↔
+      (Sorted (asList t) ∧ ∀ e ∈ asList t, WF d e.2)
+    rw [Bool.and_eq_true, sortedB_iff, List.all_eq_true]
+    exact ⟨fun ⟨h1, h2⟩ => ⟨h1, fun e he => (ih e.2).1 (h2 e he)⟩,
+           fun ⟨h1, h2⟩ => ⟨h1, fun e he => (ih e.2).2 (h2 e he)⟩⟩
+
+theorem hdIs_unique {c c' : κ} {pv : List κ × ν} (h : hdIs c pv = true) (h' : hdIs c' pv = true) : c = c' := by
+  simp only [hdIs, decide_eq_true_eq] at h h'
+  rw [h] at h'
+  exact Option.some.inj h'
+
+/-- Two sorted trees without empty elements that have the same content are equal. -/
+theorem canonical_unique (dflt : ν) : ∀ (d : Nat) (a b : Tree κ ν d),
+    WF d a → WF d b → noEmptyB dflt d a = true → noEmptyB dflt d b = true →
+    content dflt d a = content dflt d b → a = b := by
+  intro d
+  induction d with
+  | zero =>
+    intro a b _ _ _ _ h
+    have key : ∀ v w : ν, content (κ := κ) dflt 0 v = content (κ := κ) dflt 0 w → v = w := by
+      intro v w hvw
+      rw [content_zero, content_zero] at hvw
+      by_cases hv : v = dflt
+      · by_cases hw : w = dflt
+        · rw [hv, hw]
+        · rw [if_pos hv, if_neg hw] at hvw; cases hvw
+      · by_cases hw : w = dflt
+        · rw [if_neg hv, if_pos hw] at hvw; cases hvw
+        · rw [if_neg hv, if_neg hw] at hvw
+          simp only [List.cons.injEq, Prod.mk.injEq, true_and, and_true] at hvw
+          exact hvw
+    exact key a b h
+  | succ d ih =>
+    have main : ∀ (a b : List (κ × Tree κ ν d)),
+        WF (d + 1) (show Tree κ ν (d + 1) from a) → WF (d + 1) (show Tree κ ν (d + 1) from b) →
+        noEmptyB dflt (d + 1) (show Tree κ ν (d + 1) from a) = true →
+        noEmptyB dflt (d + 1) (show Tree κ ν (d + 1) from b) = true →
+        content dflt (d + 1) (show Tree κ ν (d + 1) from a) = content dflt (d + 1) (show Tree κ ν (d + 1) from b) →
+        a = b := by
+      -- facts about a head element of a canonical list
+      have headFacts : ∀ (e : κ × Tree κ ν d) (r : List (κ × Tree κ ν d)),
+          WF (d + 1) (show Tree κ ν (d + 1) from e :: r) →
+          noEmptyB dflt (d + 1) (show Tree κ ν (d + 1) from e :: r) = true →
+          (∀ x ∈ r, x.1 ≠ e.1) ∧ contrib dflt d e ≠ [] ∧ WF d e.2 ∧ noEmptyB dflt d e.2 = true ∧
+          WF (d + 1) (show Tree κ ν (d + 1) from r) ∧ noEmptyB dflt (d + 1) (show Tree κ ν (d + 1) from r) = true := by
+        intro e r hw hn
+        obtain ⟨hs, hwe⟩ := hw
+        have hn' := List.all_eq_true.1 hn
+        have hne := hn' e (List.mem_cons_self ..)
+        rw [Bool.and_eq_true] at hne
+        refine ⟨?_, ?_, hwe e (List.mem_cons_self ..), hne.2, ⟨hs.tail, fun x hx => hwe x (List.mem_cons_of_mem _ hx)⟩, ?_⟩
+        · intro x hx heq
+          exact irrefl e.1 (by have := hs.head_lt x hx; rw [heq] at this; exact this)
+        · intro hc
+          have : content dflt d e.2 = [] := List.map_eq_nil_iff.1 hc
+          have := isEmpty_of_content_nil dflt d e.2 this
+          rw [this] at hne
+          exact absurd hne.1 (by simp)
+        · apply List.all_eq_true.2
+          intro x hx
+          exact hn' x (List.mem_cons_of_mem _ hx)
+      intro a
+      induction a with
+      | nil =>
+        intro b _ hwb _ hnb h
+        cases b with
+        | nil => rfl
+        | cons e' r' =>
+          obtain ⟨_, hc, _⟩ := headFacts e' r' hwb hnb
+          rw [content_nil', content_cons] at h
+          have := List.append_eq_nil_iff.1 h.symm
+          exact absurd this.1 hc
+      | cons e r iha =>
+        intro b hwa hwb hna hnb h
+        cases b with
+        | nil =>
+          obtain ⟨_, hc, _⟩ := headFacts e r hwa hna
+          rw [content_nil', content_cons] at h
+          have := List.append_eq_nil_iff.1 h
+          exact absurd this.1 hc
+        | cons e' r' =>
+          obtain ⟨hne, hc, hwe, hnee, hwr, hnr⟩ := headFacts e r hwa hna
+          obtain ⟨hne', hc', hwe', hnee', hwr', hnr'⟩ := headFacts e' r' hwb hnb
+          -- the first coordinates agree
+          have hk : e.1 = e'.1 := by
+            have h1 := h
+            rw [content_cons, content_cons] at h1
+            obtain ⟨pv, hpv, hh⟩ := contrib_head dflt d e (content dflt (d + 1) (show Tree κ ν (d + 1) from r)) hc
+            obtain ⟨pv', hpv', hh'⟩ := contrib_head dflt d e' (content dflt (d + 1) (show Tree κ ν (d + 1) from r')) hc'
+            rw [h1] at hpv
+            rw [hpv] at hpv'
+            have : pv = pv' := Option.some.inj hpv'
+            subst this
+            exact hdIs_unique hh hh'
+          obtain ⟨f1, f2⟩ := filter_hdIs_cons dflt d e r hne
+          obtain ⟨f1', f2'⟩ := filter_hdIs_cons dflt d e' r' hne'
+          rw [h, hk, f1'] at f1
+          rw [h, hk, f2'] at f2
+          obtain ⟨c, t⟩ := e
+          obtain ⟨c', t'⟩ := e'
+          simp only at hk
+          subst hk
+          have ht : t = t' := ih t t' hwe hwe' hnee hnee' (contrib_inj dflt d c t t' f1.symm)
+          have hr : r = r' := iha r' hwr hwr' hnr hnr' f2.symm
+          rw [ht, hr]
+    intro a b hwa hwb hna hnb h
+    exact main a b hwa hwb hna hnb h
+
+end Unique2
 end Ft
